@@ -348,7 +348,7 @@ PROPS = {
                  "entity instances from 1 with 'instance start' selecting the first one reported (DCMI 6.5.2 as read by the library)",
                  'cipher suite record data is shorter than 1024 bytes (see note)']},
     "C13": {
-        "claim": "PARTIAL. Proved on a tick-based time model of backoff.Retry(op, backoff.WithContext(b, ctx)) with every attempt under context.WithTimeout(ctx, T): for EVERY behaviour of the BMC (any stream of attempt durations, outcomes and back-off proposals) the call returns no later than max(now, deadline) within deadline-now+1 iterations, reports success only if an attempt received a final response, and with an expired context returns at once with an error (returns_by_deadline, expired_context, no_false_success). The model's assumptions A1-A3 (Send honours its context's deadline, back-off sleeps honour the context, an attempt takes at least a tick) are tied to the source by regenerated syntactic facts (3 WithTimeout calls all on the caller's ctx; 4 Retry calls all under WithContext(_, ctx); both socket deadlines set from the context). What the model cannot exhibit - socket deadlines, timers, the scheduler - is exercised by the `time` scenario over REAL UDP sockets (no hook): session-less command, handshake, in-session command, close, SDR retrieval x {black hole, reply after the per-attempt timeout, garbage, busy forever, truncated handshake replies} x several timeout/deadline ratios incl. an already expired context, verdict: returned by deadline + 250 ms with an error.",
+        "claim": "PARTIAL. Proved on a tick-based time model of backoff.Retry(op, backoff.WithContext(b, ctx)) with every attempt under context.WithTimeout(ctx, T): for EVERY behaviour of the BMC (any stream of attempt durations, outcomes and back-off proposals) the call returns no later than max(now, deadline) within deadline-now+1 iterations, reports success only if an attempt received a final response, and with an expired context returns at once with an error (returns_by_deadline, expired_context, no_false_success); the multi-step calls are modelled too: a sequence of retry loops under the same context (handshake = 3 exchanges, close, one SDR walk: sequence_returns_by_deadline) and the outer retry over whole walks of RetrieveSDRRepository (retrieval_returns_by_deadline), with any BMC behaviour at any step. The model's assumptions A1-A3 (Send honours its context's deadline, back-off sleeps honour the context, an attempt takes at least a tick) are tied to the source by regenerated syntactic facts (3 WithTimeout calls all on the caller's ctx; 4 Retry calls all under WithContext(_, ctx); both socket deadlines set from the context). What the model cannot exhibit - socket deadlines, timers, the scheduler - is exercised by the `time` scenario over REAL UDP sockets (no hook): session-less command, handshake, in-session command, close, SDR retrieval x {black hole, reply after the per-attempt timeout, garbage, busy forever, truncated handshake replies}, the fault setting in at the first datagram or after k properly answered ones (every later exchange of the handshake, every phase of the SDR walk), x several timeout/deadline ratios incl. an already expired context, the per-attempt timeout given through WithTimeout, SetTimeout or the version-agnostic Dial, verdict: returned by deadline + 250 ms with an error.",
         "note": "trusted: Lean kernel; the time model's assumptions A1-A3 (runtime behaviour of net, context and time packages and of cenkalti/backoff, modelled from source); factgen's syntactic facts; wall-clock measurements on a possibly loaded host (250 ms allowance). Contexts cancelled without a deadline are outside the property.",
         "technique": "Lean 4 proof over a time model (induction on the remaining time) + regenerated syntactic facts + wall-clock runs over real UDP sockets",
         "ref": "§5 C13",
